@@ -1,8 +1,8 @@
 package wire
 
 import (
-	"io"
 	"context"
+	"io"
 )
 
 // ---------------------------------------------------------------------------
@@ -106,6 +106,12 @@ func VerifH10e() {
 		SessionMiddleware(func(ctx context.Context) (context.Context, error) { mw++; return ctx, nil }))
 	vAssert("newserver-ok", err == nil)
 	conn := vNewConn(vCat(hdr, rest))
+	if declared > uint32(L)+4+8 && nondetBool() {
+		// the client declares more than it sends and then waits for the answer:
+		// the connection is ended, not kept waiting for the rest of the body
+		conn.silent = "oversized-startup-ends-connection-without-waiting-for-its-body"
+		vReach("startup-body-withheld")
+	}
 	serr := srv.serve(context.Background(), conn)
 	vAssert("startup-size-violation-ends-connection", serr != nil && conn.closed >= 1)
 	vAssert("no-session", vCount(vTypes(conn.out), 'Z') == 0 && mw == 0 && len(w.events) == 0)
@@ -114,6 +120,62 @@ func VerifH10e() {
 	} else {
 		vReach("startup-length-above-limit")
 	}
+}
+
+// ---------------------------------------------------------------------------
+// H10p — an oversized message during authentication ends the connection
+// (C10): after the password request the client sends a message of any type
+// whose header declares any length above the limit (up to 2^32-1). Either it
+// withholds the body and waits, or it sends the whole body followed by a
+// well-formed password message with the right password and a query. The
+// connection is ended: the body is not waited for, the oversized message is not
+// given the in-session treatment (skip, non-fatal error, ReadyForQuery), the
+// validator is never consulted and nothing is parsed.
+// ---------------------------------------------------------------------------
+func VerifH10p() {
+	L := 32
+	typ := nondetByte()
+	withheld := nondetBool()
+	var pw []byte
+	if withheld {
+		declared := nondetU32()
+		vAssume(declared > uint32(L)+4+8)
+		pw = vCat([]byte{typ, byte(declared >> 24), byte(declared >> 16), byte(declared >> 8), byte(declared)}, nondetBytes(vChoose(4)))
+	} else {
+		big := make([]byte, L+1+vChoose(vParam("OVER", 3)))
+		for i := range big {
+			big[i] = 'x'
+		}
+		big[len(big)-1] = 0
+		pw = vCat(vMsgBytes(typ, big), vMsgBytes('p', vCStr([]byte("secret"))), vMsgBytes('Q', vCStr([]byte("b"))))
+	}
+	input := vCat(vStartup(vKV([]byte("user"), []byte("u"), []byte("database"), []byte("d"))), pw)
+	validatorCalls := 0
+	validate := func(ctx context.Context, database, username, password string) (context.Context, bool, error) {
+		validatorCalls++
+		return ctx, true, nil
+	}
+	mw := 0
+	w := &vWorld{parseMenu: 2, execMenu: 2}
+	srv, err := vServerCfg(w.parse, MessageBufferSize(L),
+		SessionAuthStrategy(ClearTextPassword(validate)),
+		SessionMiddleware(func(ctx context.Context) (context.Context, error) { mw++; return ctx, nil }))
+	vAssert("newserver-ok", err == nil)
+	conn := vNewConn(input)
+	if withheld {
+		conn.silent = "oversized-password-message-ends-connection-without-waiting-for-its-body"
+		vReach("password-body-withheld")
+	} else {
+		vReach("password-body-sent")
+	}
+	serr := srv.serve(context.Background(), conn)
+	types := vTypes(conn.out)
+	vAssert("oversized-during-authentication-ends-connection", serr != nil && conn.closed >= 1)
+	vAssert("wire-wellformed", vWireOK(conn.out))
+	vAssert("oversized-during-authentication-validator-not-consulted", validatorCalls == 0)
+	vAssert("oversized-during-authentication-not-authenticated", !vHasAuthOK(conn.out) && vCount(types, 'S') == 0)
+	vAssert("oversized-during-authentication-no-ReadyForQuery", vCount(types, 'Z') == 0)
+	vAssert("oversized-during-authentication-no-session", mw == 0 && len(w.events) == 0)
 }
 
 // ---------------------------------------------------------------------------
@@ -620,6 +682,112 @@ func VerifH10i() {
 	vAssert("nothing-of-the-oversized-body-is-a-message", len(parsed) == 2 && string(parsed[1]) == "b")
 	vAssert("wire-wellformed", vWireOK(w.conn.out))
 	vReach("oversized-copydata")
+}
+
+// ---------------------------------------------------------------------------
+// H18c — retained data and binary COPY streams split across messages (C18):
+// a COPY whose tuple is split over two CopyData messages at a solver-chosen
+// point (inside the file header, the field count, the field length or the
+// value), a query whose text the parser retains, a second split COPY with
+// other bytes, a last query. The query texts the parser kept and the row
+// values the first COPY delivered still equal their private copies at the end:
+// whatever the reader uses to join chunks is never memory a callback holds.
+// ---------------------------------------------------------------------------
+func VerifH18c() {
+	cuts := []int{5, 20, 23, 26}
+	mkCopy := func(v []byte, cut int, binaryValue bool) []byte {
+		stream := vCat(vCopyHeader, vU16(1), vU32(uint32(len(v))), v, []byte{0xFF, 0xFF})
+		return vCat(vMsgBytes('d', stream[:cut]), vMsgBytes('d', stream[cut:]), vMsgBytes('c', nil))
+	}
+	v1 := nondetBytes(4)
+	v2 := nondetBytes(4)
+	q := nondetBytes(3)
+	vAssume(vNoNUL(q))
+	vAssume(q[0] != 'C')
+	vAssume(q[0] > ' ') // a blank query never reaches the parser
+	cut1 := cuts[vChoose(len(cuts))]
+	cut2 := cuts[vChoose(len(cuts))]
+	bytea := nondetBool() // the COPY column is bytea (values decode to []byte) or text
+	var keptQueries []string
+	var keptCopies [][]byte
+	var keptVals []any
+	var keptValCopies [][]byte
+	parse := func(ctx context.Context, query string) (PreparedStatements, error) {
+		keptQueries = append(keptQueries, query)
+		keptCopies = append(keptCopies, append([]byte{}, query...))
+		isCopy := len(query) > 0 && query[0] == 'C'
+		fn := func(ctx context.Context, dw DataWriter, params []Parameter) error {
+			if !isCopy {
+				return dw.Complete("T")
+			}
+			cr, err := dw.CopyIn(BinaryFormat)
+			if err != nil {
+				return err
+			}
+			br, err := NewBinaryColumnReader(ctx, cr)
+			if err != nil {
+				return err
+			}
+			for k := 0; k < 3; k++ {
+				row, err := br.Read(ctx)
+				if err == io.EOF {
+					return dw.Complete("COPY")
+				}
+				if err != nil {
+					return err
+				}
+				keptVals = append(keptVals, row[0])
+				switch x := row[0].(type) {
+				case string:
+					keptValCopies = append(keptValCopies, []byte(x))
+				case []byte:
+					keptValCopies = append(keptValCopies, append([]byte{}, x...))
+				default:
+					keptValCopies = append(keptValCopies, nil)
+				}
+			}
+			return errVerifExec
+		}
+		cols := vTextColumns(1)
+		if bytea {
+			cols = Columns{{Name: "b", Oid: 17}}
+		}
+		return Prepared(NewStatement(fn, WithColumns(cols))), nil
+	}
+	input := vCat(vMsgBytes('Q', vCStr([]byte("C1"))), mkCopy(v1, cut1, bytea),
+		vMsgBytes('Q', vCStr(q)),
+		vMsgBytes('Q', vCStr([]byte("C2"))), mkCopy(v2, cut2, bytea),
+		vMsgBytes('Q', vCStr([]byte("last"))))
+	srv, err := NewServer(parse, MessageBufferSize(4200))
+	vAssert("newserver-ok", err == nil)
+	w := &vWorld{srv: srv}
+	w.conn = vNewConn(input)
+	w.ses, w.rd, w.wr = vSession(srv, w.conn)
+	w.ctx = vCtx(srv)
+	for k := 0; k < 4; k++ {
+		out, e := w.step()
+		vAssert("connection-stays-up", e == nil)
+		if k == 0 || k == 2 {
+			vAssert("split-copy-completes", out == "TGCZ")
+		}
+	}
+	vAssert("split-copy-queries-retained", len(keptQueries) == 4)
+	vAssert("split-copy-rows-delivered", len(keptVals) == 2 && vEqBytes(keptValCopies[0], v1) && vEqBytes(keptValCopies[1], v2))
+	for i := range keptQueries {
+		vAssert("retained-query-unchanged-by-split-copy", vEqStr(keptQueries[i], string(keptCopies[i])))
+	}
+	for i := range keptVals {
+		switch x := keptVals[i].(type) {
+		case string:
+			vAssert("retained-copy-value-unchanged", vEqStr(x, string(keptValCopies[i])))
+		case []byte:
+			vAssert("retained-copy-value-unchanged", vEqBytes(x, keptValCopies[i]))
+			vReach("copy-value-delivered-as-bytes")
+		}
+	}
+	if cut1 >= 26 && cut2 >= 26 {
+		vReach("both-copies-split-inside-the-value")
+	}
 }
 
 // ---------------------------------------------------------------------------
